@@ -74,7 +74,12 @@ class StubConn(BaseConnection):
         self.t_send = self.clock.now
         if self.responder is not None:
             self.script = list(self.responder(bytes(payload)))
-        self.pending = [(self.t_send + t * TICK, p) for t, p in self.script]
+        # frames of an earlier exchange that were never consumed nor flushed are still in the transport's queue: those that have arrived by
+        # now are delivered first (a client that flushed before sending has none)
+        leftover = self.pending
+        self.stale = self.stale + [p for t, p in leftover if t <= self.clock.now]
+        self.pending = [(t, p) for t, p in leftover if t > self.clock.now] + [(self.t_send + t * TICK, p) for t, p in self.script]
+        self.pending.sort(key=lambda x: x[0])
         self.script = []
 
     def specific_wait_frame(self, timeout=2):
